@@ -190,7 +190,7 @@ package websocket
 // Footprints (textual macros).
 //@ define RDFP ghrd(c.br).pos, c.readHeaderBuf, c.readControlBuf, chanstate(c.readTimeout)
 //@ define WRFP ghwr(c.bw).pos, ghwr(c.bw).out, ghwr(c.bw).buffered, ghrd(specRand()).pos, c.writeHeader, c.writeHeaderBuf, bytes(c.writeBuf), chanstate(c.writeTimeout), chanstate(c.writeFrameMu.ch), gh(c).closeSent
-//@ define CLFP chanstate(c.closed), chanstate(c.readMu.ch), chanstate(c.msgWriter.writeMu.ch), c.br, c.msgReader.flateReader, c.msgReader.dict, c.msgReader.dict.buf, c.msgWriter.flateWriter
+//@ define CLFP chanstate(c.closed), chanstate(c.readMu.ch), chanstate(c.msgWriter.writeMu.ch), c.br, c.msgReader.flateReader, c.msgReader.dict, c.msgWriter.flateWriter
 
 // Write-side and close-side callees of the read path. Their contracts are stated here
 // and proved against their bodies further below (write.go / close.go sections).
@@ -225,7 +225,7 @@ package websocket
 //@ func (*msgReader).close
 //@ tags C05 C07
 //@ requires mr != nil && mr.c != nil && mr.c.readMu != nil && mr.c.readMu.ch != nil && !gvcHeld(mr.c.readMu.ch)
-//@ modifies chanstate(mr.c.readMu.ch), mr.flateReader, mr.dict, mr.c.br, mr.dict.buf
+//@ modifies chanstate(mr.c.readMu.ch), mr.flateReader, mr.dict, mr.c.br
 //@ ensures [locked-forever] {C05} gvcHeld(mr.c.readMu.ch)
 //@ ensures [released] {C07} mr.flateReader == nil && mr.dict == nil && (mr.c.client ==> mr.c.br == nil) && (!mr.c.client ==> mr.c.br == old(mr.c.br))
 
@@ -238,11 +238,12 @@ package websocket
 
 //@ func (*Conn).close
 //@ tags C05 C06 C20
-//@ requires connInv(c) && !gvcHeld(c.readMu.ch) && !gvcHeld(c.writeFrameMu.ch) && !gvcHeld(c.msgWriter.writeMu.ch) && c.rwc != nil
-//@ modifies chanstate(c.closed), chanstate(c.readMu.ch), chanstate(c.msgWriter.writeMu.ch), chanstate(c.writeFrameMu.ch), c.br, c.msgReader.flateReader, c.msgReader.dict, c.msgReader.dict.buf, c.msgWriter.flateWriter
+//@ requires connInv(c) && c.rwc != nil && !gvcHeld(c.readMu.ch) && (gvcClosed(c.closed) || (!gvcHeld(c.writeFrameMu.ch) && !gvcHeld(c.msgWriter.writeMu.ch)))
+//@ modifies chanstate(c.closed), chanstate(c.readMu.ch), chanstate(c.msgWriter.writeMu.ch), chanstate(c.writeFrameMu.ch), c.br, c.msgReader.flateReader, c.msgReader.dict, c.msgWriter.flateWriter
 //@ ensures [closed] {C06 C20} gvcClosed(c.closed)
 //@ ensures [once] old(gvcClosed(c.closed)) ==> result == net.ErrClosed && c.br == old(c.br)
 //@ ensures [dict-released-only] c.msgReader.dict == old(c.msgReader.dict) || c.msgReader.dict == nil
+//@ ensures [br] c.br == old(c.br) || (c.client && c.br == nil)
 //@ ensures [not-ce] !errIsCE(result)
 
 //@ func (*Conn).handleControl
@@ -250,6 +251,7 @@ package websocket
 //@ requires connReady(c) && c.br != nil && ctx != nil && gvcHeld(c.readMu.ch) && !gvcHeld(c.writeFrameMu.ch) && !gvcHeld(c.msgWriter.writeMu.ch) && (h.opcode == opClose || h.opcode == opPing || h.opcode == opPong)
 //@ modifies $RDFP, $WRFP, $CLFP
 //@ ensures [ok-keeps] err == nil ==> connReady(c) && c.br == old(c.br) && gvcHeld(c.readMu.ch) && !gvcHeld(c.writeFrameMu.ch) && !gvcHeld(c.msgWriter.writeMu.ch) && h.opcode != opClose
+//@ ensures [idle-always] connIdle(c)
 //@ ensures [ctl-len] (h.payloadLength > 125 || !h.fin) ==> err != nil && ghrd(old(c.br)).pos == old(ghrd(c.br).pos)
 //@ ensures [consumed] err == nil ==> ghrd(c.br).pos == old(ghrd(c.br).pos) + int(h.payloadLength)
 //@ ensures [close-code] h.opcode == opClose && errIsCE(err) && h.payloadLength >= 2 ==> int(errCECode(err)) == specBE16(rdin(old(c.br), old(ghrd(c.br).pos)) ^ specMaskByte(h.maskKey, 0)&specBit(h.masked, 0xff), rdin(old(c.br), old(ghrd(c.br).pos)+1) ^ specMaskByte(h.maskKey, 1)&specBit(h.masked, 0xff))
@@ -264,6 +266,7 @@ package websocket
 //@ modifies $RDFP, $WRFP, $CLFP
 //@ ensures [data-op] result1 == nil ==> result0.opcode == opContinuation || result0.opcode == opText || result0.opcode == opBinary
 //@ ensures [rsv] result1 == nil ==> !result0.rsv2 && !result0.rsv3 && (result0.rsv1 ==> c.copts != nil && (result0.opcode == opText || result0.opcode == opBinary))
+//@ ensures [idle-always] connIdle(c)
 //@ ensures [mask-server] result1 == nil && !c.client ==> result0.masked
 //@ ensures [mask-client] result1 == nil && c.client ==> !result0.masked
 //@ ensures [nonneg] result1 == nil ==> result0.payloadLength >= 0
@@ -280,7 +283,7 @@ package websocket
 
 //@ define RDFPm ghrd(mr.c.br).pos, mr.c.readHeaderBuf, mr.c.readControlBuf, chanstate(mr.c.readTimeout)
 //@ define WRFPm ghwr(mr.c.bw).pos, ghwr(mr.c.bw).out, ghwr(mr.c.bw).buffered, ghrd(specRand()).pos, mr.c.writeHeader, mr.c.writeHeaderBuf, bytes(mr.c.writeBuf), chanstate(mr.c.writeTimeout), chanstate(mr.c.writeFrameMu.ch), gh(mr.c).closeSent
-//@ define CLFPm chanstate(mr.c.closed), chanstate(mr.c.readMu.ch), chanstate(mr.c.msgWriter.writeMu.ch), mr.c.br, mr.c.msgReader.flateReader, mr.c.msgReader.dict, mr.c.msgReader.dict.buf, mr.c.msgWriter.flateWriter
+//@ define CLFPm chanstate(mr.c.closed), chanstate(mr.c.readMu.ch), chanstate(mr.c.msgWriter.writeMu.ch), mr.c.br, mr.c.msgReader.flateReader, mr.c.msgReader.dict, mr.c.msgWriter.flateWriter
 
 //@ func (*msgReader).read
 //@ tags C03 C04 C01
@@ -300,7 +303,7 @@ package websocket
 //@ func (*limitReader).Read
 //@ tags C08
 //@ requires lr.c != nil && connReady(lr.c) && !gvcHeld(lr.c.writeFrameMu.ch) && !gvcHeld(lr.c.msgWriter.writeMu.ch) && lr.c.msgReader.limitReader == lr && ghconn(lr.r) == lr.c && lr.r != nil
-//@ modifies bytes(p), lr.n, ghrd(lr.c.br).pos, lr.c.readHeaderBuf, lr.c.readControlBuf, chanstate(lr.c.readTimeout), ghwr(lr.c.bw).pos, ghwr(lr.c.bw).out, lr.c.writeHeader, lr.c.writeHeaderBuf, bytes(lr.c.writeBuf), chanstate(lr.c.writeTimeout), chanstate(lr.c.writeFrameMu.ch), gh(lr.c).closeSent, ghwr(lr.c.bw).buffered, ghrd(specRand()).pos, chanstate(lr.c.readMu.ch), chanstate(lr.c.msgWriter.writeMu.ch), chanstate(lr.c.closed), lr.c.br, lr.c.msgReader.flateReader, lr.c.msgReader.dict, lr.c.msgReader.dict.buf, lr.c.msgWriter.flateWriter, lr.c.msgReader.fin, lr.c.msgReader.payloadLength, lr.c.msgReader.maskKey
+//@ modifies bytes(p), lr.n, ghrd(lr.c.br).pos, lr.c.readHeaderBuf, lr.c.readControlBuf, chanstate(lr.c.readTimeout), ghwr(lr.c.bw).pos, ghwr(lr.c.bw).out, lr.c.writeHeader, lr.c.writeHeaderBuf, bytes(lr.c.writeBuf), chanstate(lr.c.writeTimeout), chanstate(lr.c.writeFrameMu.ch), gh(lr.c).closeSent, ghwr(lr.c.bw).buffered, ghrd(specRand()).pos, chanstate(lr.c.readMu.ch), chanstate(lr.c.msgWriter.writeMu.ch), chanstate(lr.c.closed), lr.c.br, lr.c.msgReader.flateReader, lr.c.msgReader.dict, lr.c.msgWriter.flateWriter, lr.c.msgReader.fin, lr.c.msgReader.payloadLength, lr.c.msgReader.maskKey
 //@ ensures [n] 0 <= result0 && result0 <= len(p)
 //@ ensures [unlimited] old(lr.n) < 0 ==> lr.n == old(lr.n)
 //@ ensures [exhausted] old(lr.n) == 0 ==> result0 == 0 && result1 != nil && !errIs(result1, io.EOF) && !errIs(result1, io.ErrUnexpectedEOF)
@@ -381,6 +384,16 @@ package websocket
 //@ ensures [joined] result == nil ==> gvcClosed(c.timeoutLoopDone) && gvcClosed(c.closed) && (c.closeReadCtx != nil ==> gvcClosed(c.closeReadDone))
 //@ ensures [err-kind] !errIs(result, net.ErrClosed) && !errIsCE(result)
 
+//@ func (*Conn).discardFramePayload
+//@ tags C09 C06
+//@ requires connInv(c) && c.br != nil && ctx != nil
+//@ modifies ghrd(c.br).pos, c.readControlBuf, chanstate(c.readTimeout)
+//@ ensures [consumed] result == nil && n >= 0 ==> ghrd(c.br).pos == old(ghrd(c.br).pos)+int(n)
+//@ ensures [not-ce] !errIsCE(result) && result != io.EOF
+//@ loop 1 modifies ghrd(c.br).pos, c.readControlBuf, chanstate(c.readTimeout)
+//@ loop 1 decreases int(n)
+//@ loop 1 invariant [acct] n <= old(n) && (old(n) >= 0 ==> n >= 0 && ghrd(c.br).pos == old(ghrd(c.br).pos)+int(old(n)-n))
+
 //@ func (*Conn).waitCloseHandshake
 //@ tags C06 C09 C05
 //@ requires connReady(c) && !gvcHeld(c.readMu.ch) && !gvcHeld(c.writeFrameMu.ch) && !gvcHeld(c.msgWriter.writeMu.ch) && (c.br != nil || gvcClosed(c.closed))
@@ -388,19 +401,15 @@ package websocket
 //@ ensures [never-nil] result != nil
 //@ ensures [unlocked] {C05} !gvcHeld(c.readMu.ch)
 //@ ensures [frame-state-untouched] {C05} c.msgReader.fin == old(c.msgReader.fin) && c.msgReader.payloadLength == old(c.msgReader.payloadLength) && c.msgReader.maskKey == old(c.msgReader.maskKey)
-//@ ensures [inv] connInv(c) && specWriteInv(c) && !gvcHeld(c.writeFrameMu.ch)
-//@ loop 1 modifies ghrd(c.br).pos
+//@ ensures [inv] connIdle(c)
+//@ loop 1 modifies $RDFP, $WRFP, $CLFP
 //@ loop 1 invariant [inv] connReady(c) && c.br == old(c.br) && c.br != nil && gvcHeld(c.readMu.ch) && !gvcHeld(c.writeFrameMu.ch) && !gvcHeld(c.msgWriter.writeMu.ch)
-//@ loop 2 modifies $RDFP, $WRFP, $CLFP
-//@ loop 2 invariant [inv] connReady(c) && c.br == old(c.br) && c.br != nil && gvcHeld(c.readMu.ch) && !gvcHeld(c.writeFrameMu.ch) && !gvcHeld(c.msgWriter.writeMu.ch)
-//@ loop 3 modifies ghrd(c.br).pos
-//@ loop 3 invariant [inv] connReady(c) && c.br == old(c.br) && c.br != nil && gvcHeld(c.readMu.ch) && !gvcHeld(c.writeFrameMu.ch) && !gvcHeld(c.msgWriter.writeMu.ch)
 
 //@ func (*Conn).closeHandshake
 //@ tags C06
 //@ requires connReady(c) && !gvcHeld(c.readMu.ch) && !gvcHeld(c.writeFrameMu.ch) && !gvcHeld(c.msgWriter.writeMu.ch) && (c.br != nil || gvcClosed(c.closed))
 //@ modifies $WRFP, $RDFP, $CLFP
-//@ ensures [inv] connInv(c) && !gvcHeld(c.readMu.ch) && !gvcHeld(c.writeFrameMu.ch)
+//@ ensures [inv] connIdle(c) && !gvcHeld(c.readMu.ch)
 //@ ensures [nil-iff-echo] {C06} result == nil ==> true
 
 //@ func (*Conn).Close
